@@ -737,6 +737,17 @@ func Core() []*Program {
 		"a": {Cmds: []Cmd{call("w", "#1"), call("w", "1"), call("w", "#1"), call("w", "1"), sh(0)}},
 		"w": {Run: "when_changed", Cmds: []Cmd{{K: "dsh"}}},
 	}))
+	// every way out of a task gives its slot back: a guarded task next to a sibling that needs the only slot; the
+	// harness decides who takes the slot first
+	for _, g := range []string{"precond", "prompt", "requires", "enum", "uptodate", "platform"} {
+		pr := mk("limit1-dep-guard-"+g, 1, []string{"a", "b", "c"}, map[string]*Task{
+			"a": {Deps: []CallSite{depv("b", "two"), dep("c")}, Cmds: []Cmd{sh(0)}},
+			"b": {Guard: g, Cmds: []Cmd{sh(0)}},
+			"c": {Cmds: []Cmd{sh(0), sh(0)}},
+		})
+		pr.AcqGate = true
+		add(pr)
+	}
 	// two roots, sequential and parallel
 	for _, par := range []bool{false, true} {
 		p := mk(fmt.Sprintf("two-roots-par%v", par), 2, []string{"a", "b", "c"}, map[string]*Task{
